@@ -60,4 +60,19 @@ theorem C11_no_leak (G : GenLayer) (hG : ∀ pgn d m, G.decode pgn d = some (.ok
     (n : IsoName) (hn : o.iso = some n) : manuPasses cfg n = true :=
   run_no_leak G hG cfg st h k i o hi ho hne n hn
 
+/-- **The identity's numbers are the bits of the claim's NAME**: unique number = bits 0..20, device instance =
+bits 32..39, system instance = bits 56..59 — every bit pattern is data (an all-ones sub-field is not "absent") -/
+theorem C11_identity_bits (m : Msg) (name : Nat) (n : IsoName) (h : mkIsoName m name = some n) :
+    n.name = name ∧ n.uniqueNumber = ((name % 2 ^ 21 : Nat) : Int) ∧ n.deviceInstance = ((name / 2 ^ 32 % 256 : Nat) : Int) ∧
+    n.systemInstance = ((name / 2 ^ 56 % 16 : Nat) : Int) := by
+  unfold mkIsoName at h
+  simp only [Option.bind_eq_bind, Option.pure_def, Option.bind_eq_some_iff] at h
+  obtain ⟨_, _, _, _, _, _, _, _, _, _, _, _, _, _, _, _, _, _, _, _, h⟩ := h
+  simp only [Option.some.injEq] at h
+  subst h
+  refine ⟨rfl, ?_, ?_, ?_⟩ <;> simp only [Nat.reducePow]
+
+-- non-vacuity: instance byte 15, unique number 2097151, system instance 15 survive
+example : (2097151 + 15 * 2 ^ 32 + 15 * 2 ^ 56) / 2 ^ 32 % 256 = 15 ∧ (2097151 + 15 * 2 ^ 32 + 15 * 2 ^ 56) % 2 ^ 21 = 2097151 := by decide
+
 end N2k.Dec
